@@ -1253,7 +1253,9 @@ def mon_c13(w, F, vd):
                 if t_["lost_ei"] is not None and t_["lost_ei"] < ei:
                     continue
                 if t_["connected_ei"] is not None and t_["connected_ei"] < ei and keepalive.get(c, 0):
-                    n_ka += 2
+                    # the loop, the deadline of the PINGREQ just written and -- for the instant in which both are
+                    # due -- the deadline of the previous, unanswered one
+                    n_ka += 3
             for p in pk:
                 if not p.tx:
                     continue
